@@ -41,7 +41,7 @@ def hist(test, rule, quick=2500, thorough=160000, floors=None, extra_assume=None
 GEN = ("rapid draws a Case = generated topology (1-4 pools over 2-4 node subnets, rendered to the documented JSON text and loaded through "
        "the real decoder) + 1-3 workloads (statefulset, deployment, deployment with pool, scalable/non-scalable custom resource, bare pod; "
        "policies default/immutable/never) + a history of 15-60 operations with abstract picks (create/recreate-same-name/schedule=filter+bind/"
-       "filter/bind/phase/delete/deliver or drop informer event/run queued unbind/resync/pod-IP sync/scale/delete app/API release/pool API/"
+       "filter/bind/phase/graceful deletion begins (deletion timestamp on a bound pod that keeps running)/delete/deliver or drop informer event/run queued unbind/resync/pod-IP sync/scale/delete app/API release/pool API/"
        "reserve/restart/lister sync/quiesce, phrases of such ops, and concurrent episodes of 2-4 actors - requests, event handlers, "
        "resync, reload and the informer's cache update - interleaved by the cooperative scheduler at every lister/IPAM/API/provider "
        "call, with uniform, bursty, nested and lock-convoy schedule shapes); inside an episode a controller may CREATE the next incarnation "
@@ -159,7 +159,7 @@ CHECKS["C12"] = {"pkg": "galaxysim", "test": "TestC12", "level": "fault_enumerat
     "rule": "rapid draws a static configuration (1-4 networks: inline with name, inline keyed by type, .conf files in a conf dir, .conflist; "
             "DefaultNetworks; optional ENIIPNetwork), 1-3 pods (networks annotation absent / comma form ns/net@if / JSON form; ENI resource; "
             "extended-args annotation), a request sequence for up to 2 containers per pod (one ADD each, then DELs incl. repeated and retried "
-            "ones; sequential or concurrent across containers) and 0-4 scripted plugin failures (network x ADD/DEL x n-th call). Oracle: a "
+            "ones; sequential or concurrent across containers), 0-4 scripted plugin failures (network x ADD/DEL x n-th call) and, in a fifth of the cases, a container's state file cut short as by a daemon crash during the write (k/8 of the record on disk), followed by two DELs: the first reports the unreadable record and discards it, the second succeeds, neither invokes a plugin. Oracle: a "
             "reference model of selection, order, interface names, rollback (DEL i..0 after a failing i-th ADD), remembered failed DELs and "
             "no-op repeated DEL predicts the exact invocation log and every request outcome; each plugin's stdin must equal the static "
             "network configuration (+ prevResult of the same container's previous delegate on ADD) and its args the kubelet args + that "
@@ -264,7 +264,7 @@ CHECKS["C18"] = {"pkg": "robust", "test": "(TestC18|FuzzC18.*)", "level": "explo
     "rule": "Surfaces, each as a rapid generator (valid seeds from docs/tests, hostile constants such as 255.255.255.255, 0.0.0.0, ~, /0, "
             "deep nesting, random bytes, seed mutations) and as a native fuzz target with the oracle inside: floatingip configuration text -> "
             "reload -> allocation; pod objects with arbitrary args/policy/pool annotations, owners, names, phases -> Filter, Bind, Preempt, "
-            "UpdatePod, DeletePod, unbind, resync, pod-IP sync; GET/POST /v1/ip and POST/GET/DELETE /v1/pool queries and bodies through the "
+            "UpdatePod, DeletePod, unbind, resync, pod-IP sync (a tenth of the pods are deployment pods whose name is searched so that the pod's lock key and its deployment's or pool's lock key fall into the same slot of a 500000-slot FNV-1a hashed mutex, as one pod name in 500000 does); GET/POST /v1/ip and POST/GET/DELETE /v1/pool queries and bodies through the "
             "real routes; CNI request bytes and networks annotations through the real /cni handler; galaxy JSON configuration -> "
             "checkNetworkConf -> ADD/DEL; generated valid NetworkPolicies -> full syncs and pod/policy events on strict fakes; "
             "ParseIPRange, IPNet/IPRange JSON, ParseCIDR, ParseIPv4Mask, annotation and args parsers. Oracle: the call returns a value or an "
